@@ -68,6 +68,7 @@ FUZZ = lambda q, t: stream("codec.fuzz", {"quick": q, "thorough": t, "search": q
 
 STRESS = lambda q, t: stream("codec.stress", {"quick": q, "thorough": t, "search": q}, {"quick": 4, "thorough": 8, "search": 4},
     "Go only: recursive target types, nesting depth 10^3..2*10^4 (thorough 10^5) through object, array and oneof recursion, closed and "
-    "unclosed, deep garbage inside an Any value, arrays / strings / maps up to 1 MiB (thorough 4 MiB); per-call bound 1.5 s + 5 us/byte, "
+    "unclosed, deep garbage inside an Any value, Any values nested 90..1600 (thorough 4600) deep in proto-expanding mode, arrays / strings / "
+    "maps up to 1 MiB (thorough 4 MiB); per-call bound 1.5 s + 5 us/byte, "
     "debug.SetMaxStack(256 MiB), 60 s watchdog.",
     driver=None, flush=True, crash_signature="c06-crash", timeout_s=1500, gomemlimit="12GiB", no_search=True)
